@@ -374,7 +374,7 @@ EmitBad == (d'.pc = "done" /\ d.pc # "done" /\ (d'.bad # "" \/ d'.asrt \/ (d'.re
 EmitFile ==
   (d'.pc = "done" /\ d.pc # "done") =>
      LET a == Abs(src) IN
-     EmitJ([id |-> meta[2], abs |-> a.acc, why |-> a.why, canon |-> a.canon, nel |-> a.nel, dataeq |-> (a.acc = "hash" /\ a.data = meta[3]),
+     EmitJ([id |-> meta[2], abs |-> a.acc, why |-> a.why, canon |-> a.canon, nel |-> a.nel, dataeq |-> (a.acc = "hash" /\ a.data = meta[3]), dlen |-> Len(a.data),
             trl |-> a.trl, res |-> d'.res, bad |-> d'.bad, asrt |-> d'.asrt, outeq |-> (d'.out = meta[3]), mtrl |-> d'.trl])
 
 (* unbounded MemorySafe: the input history is hidden, only the decoder state is fingerprinted *)
